@@ -203,7 +203,7 @@ def sched_random(rng):
         if d == "R":
             if rng.random() < 0.06:
                 client.append("read -1")
-                rtotal += rng.randint(0, 50000)
+                rtotal += min(rng.randint(0, 50000), hi_cap)
             else:
                 client.append("read %d" % n)
                 rtotal += n
